@@ -424,9 +424,13 @@ def ki_transparent(ctx: Ctx):
                     continue
                 if handler_is_catch_all(h):
                     n += 1
-                    ok = ki_seen or _handler_always_raises(ctx, fn, h)
+                    # re-raising means re-raising *the interrupt*: `raise` or `raise <the caught name>`, not `raise Other(...) from ex`
+                    raises = [r for r in walk_local(h) if isinstance(r, ast.Raise)]
+                    same = all(r.exc is None or (isinstance(r.exc, ast.Name) and r.exc.id == h.name and r.cause is None) for r in raises)
+                    ok = ki_seen or (_handler_always_raises(ctx, fn, h) and same)
+                    why = 'swallows' if not _handler_always_raises(ctx, fn, h) else 'converts into another exception type'
                     yield ctx.ob('C14.KI-TRANSPARENT', ok, fn, h, f'catch-all handler in calling-thread code ({fn.short})',
-                                 '' if ok else f'`except {src(h.type) if h.type else ""}` swallows a KeyboardInterrupt delivered to the '
+                                 '' if ok else f'`except {src(h.type) if h.type else ""}` {why} a KeyboardInterrupt delivered to the '
                                  'calling thread inside this try (it is turned into something else or lost)',
                                  construct=f'except {src(h.type) if h.type else ""}')
     yield ctx.ob('C14.KI-TRANSPARENT', True, run, run.node, f'{len(calling)} calling-thread functions scanned, {n} catch-all handlers',
@@ -497,7 +501,7 @@ def _instance_complete(ctx: Ctx, f: FuncInfo) -> tuple[bool, str]:
     return False, 'unrecognised enumeration'
 
 
-@rule('C01.DEP-MAP-ATTACH', ['C01', 'C02'], min_instances=2)
+@rule('C01.DEP-MAP-ATTACH', ['C01', 'C02', 'C10'], min_instances=2)
 def dep_map_attach(ctx: Ctx):
     """On every runner's execution path _set_results_map(M) is called for every direct dependency *instance* before
     run_or_load_task, with M derived from the runner's own results_map.  The enumeration must not merge equal
